@@ -820,6 +820,30 @@ fn run(case: &Case, out: &mut Out) {
     for op in &case.ops {
         let a = &op.args;
         let name = op.name.as_str();
+        if name == "bb" {
+            // black-box tier: <mode> <scenario> <seed> <buffer_size> -> the c18bb binary (a real worker)
+            let exe = std::env::current_exe().unwrap().parent().unwrap().join("c18bb");
+            let res = std::process::Command::new(exe).args(a.iter().map(|t| t.to_string())).output();
+            match res {
+                Ok(o) => {
+                    let text = String::from_utf8_lossy(&o.stdout).to_string();
+                    for line in text.lines() {
+                        if let Some(v) = line.strip_prefix("viol ") {
+                            let (c, t) = v.split_once(' ').unwrap_or((v, ""));
+                            out.viol(c, t);
+                        } else if let Some(n) = line.strip_prefix("note ") {
+                            out.note(&format!("bb: {n}"));
+                        }
+                    }
+                    if !text.contains("obs done") && !text.contains("note setup-failed") {
+                        out.viol("bb-crashed", "the black-box run did not finish");
+                    }
+                }
+                Err(e) => out.note(&format!("invalid-case: cannot run c18bb: {e}")),
+            }
+            out.obs(&[]);
+            continue;
+        }
         if name == "enc" || name == "parse" {
             codec_op(op, out);
             continue;
